@@ -19,10 +19,14 @@ import (
 //   F5  selected constants / literals
 
 type factsOut struct {
-	Commands  map[string]string   `json:"commands"`  // name -> executor
-	Skeletons map[string][]string `json:"skeletons"` // executor -> tokens
-	ReadyArm  []string            `json:"ready_arm"`
-	Consts    map[string]string   `json:"consts"`
+	Commands     map[string]string   `json:"commands"`  // name -> executor
+	Skeletons    map[string][]string `json:"skeletons"` // executor -> tokens
+	ReadyArm     []string            `json:"ready_arm"`
+	Consts       map[string]string   `json:"consts"`
+	Sites        []siteOut           `json:"sites"` // F3: panic-capable expressions (sites.go)
+	SitesErr     string              `json:"sites_error,omitempty"`
+	ExecCalls    []execCall          `json:"exec_calls"`     // every call of a registered executor, with the guaranteed len of the command passed
+	ExecEntryMin int                 `json:"exec_entry_min"` // what the analysis of an executor assumes about len(cmd) on entry
 }
 
 func callName(e ast.Expr) string {
@@ -168,8 +172,15 @@ func runFacts(args []string) {
 			return true
 		})
 	}
+	// F3: index / slice / assertion / make / division sites with the guaranteed minimum length at each (sites.go)
+	if sites, calls, err := extractSites(repo); err != nil {
+		out.SitesErr = err.Error()
+	} else {
+		out.Sites, out.ExecCalls, out.ExecEntryMin = sites, calls, execEntryMin
+	}
 	enc := json.NewEncoder(os.Stdout)
 	enc.SetIndent("", " ")
+	enc.SetEscapeHTML(false)
 	enc.Encode(out)
 }
 
